@@ -475,7 +475,7 @@ def run_thorough(rep, srcdir=None, only=None):
 
 
 MANIFEST = {
-    "technique": "atomic state-word transition extraction with exact arithmetic on known bit-fields + path-sensitive must-pass rules (LLVM IR)",
+    "technique": "atomic state-word transition extraction with exact arithmetic on known bit-fields + path-sensitive must-pass rules (LLVM IR) + memoryless-retry rule over every dq_state compare-exchange loop + internal suspend/resume pairing",
     "level": "every lock-taking / enqueueing transition is shown to exclude suspended and inactive states, the drain and the barrier hand-off to re-check "
              "suspension per item, and the suspend/resume/activate transitions (inline and side counter) to move exactly the documented constants, "
              "symbolically for every nesting depth; the number of items that may still start after a foreign suspend is not decided",
